@@ -10,7 +10,10 @@ RULE = ("histories over the real provider keeper: 2-12 validators (10% 13-20) wi
         "allow-, deny-, priority lists set by MsgCreateConsumer/MsgUpdateConsumer; opt-ins, opt-outs and key assignments by "
         "messages (incl. refused ones: unknown consumer, not launched, key in use); launches at BeginBlock and epochs at "
         "EndBlock; token changes, jailing with and without a staking EndBlock, validators entering/leaving the bonded set, "
-        "changes of M and MaxValidators. The corpus holds the tie witness of the repaired defect (DESIGN.md 9.1). "
+        "changes of M and MaxValidators. Directed blocks: (a) Top-N consumers allowing inactive validators with (almost) all "
+        "powers equal and M below the number bonded, few opt-ins, allow-/denylists naming inactive validators (an inactive "
+        "validator reaches the threshold through HasMinPower without being opted in); (b) min_stake in {2^63-1, 2^63, 2^63+1, "
+        "10^19, 2^64-1} against ordinary validators and validators holding more than 2^63 tokens. The corpus holds the tie witness of the repaired defect (DESIGN.md 9.1). "
         "Non-trivial = a computed consumer set that is neither empty nor the whole bonded list; distinct = distinct "
         "(oracle snapshot, set)")
 ASSUMPTIONS = [
@@ -19,7 +22,8 @@ ASSUMPTIONS = [
     "ComputeMinPowerInTopN is an oracle input of this slice (the real function's value is fed to the model; C03 models it)",
     "messages are delivered with baseapp semantics; only accepted messages change the model state (their acceptance rules belong to C05/C10/C14)",
     "sort.Slice is stable for n <= 12 (insertion sort); for more than 12 validators only tie-insensitive projections are compared",
-    "int64/uint64 ranges are not modelled (powers and tokens stay far below 2^63)",
+    "tokens and min_stake are unbounded integers in the model (math.Int / uint64 in Go; values up to 2^64-1 are exercised); "
+    "powers stay far below 2^63 and int64 overflow of powers is not modelled",
 ]
 TRUSTED_BASE = [
     "modelled: ComputeConsumerNextValSet, ComputeNextValidators, FilterValidators, CreateConsumerValidator, GetLastBondedValidators, "
@@ -31,6 +35,8 @@ TRUSTED_BASE = [
 ]
 
 MIL = 10 ** 6
+BIG_STAKES = [2 ** 63 - 1, 2 ** 63, 2 ** 63 + 1, 10 ** 19, 2 ** 64 - 1]      # MinStake is a uint64
+BIG_TOKENS = [2 ** 63 - 1, 2 ** 63, 2 ** 63 + 5 * 10 ** 5, 10 ** 19, 10 ** 19 + 1, 2 ** 64 - 1]   # tokens are math.Int
 
 
 def gen_tokens(rng, n):
@@ -62,6 +68,8 @@ def gen_cfg(rng, n, topn_ok=True):
     power_cap = rng.choice([0, 0, 0, 20, 34, 50, 100])
     k = rng.randint(1, 4)
     min_stake = rng.choice([0, 0, 0, k * MIL, k * MIL + 1, k * MIL + 500000, k * MIL - 1])
+    if rng.random() < 0.06:
+        min_stake = rng.choice(BIG_STAKES)
     ai = 1 if rng.random() < 0.45 else 0
     allow = sub(rng, n, rng.choice([0, 0, 0.6, 0.9]), True)
     deny = sub(rng, n, rng.choice([0, 0, 0.2, 0.4]), True)
@@ -139,8 +147,86 @@ def gen_history(rng, big=False):
     return {"tokens": tokens, "max_vals": max_vals, "M": M, "consumers": consumers, "ops": ops}
 
 
+def gen_topn_inactive(rng):
+    """directed: a Top-N consumer that allows inactive validators, M below the number bonded, (almost) all powers equal, so
+    that inactive bonded validators reach the Top-N threshold through HasMinPower without being opted in; the allow- and
+    denylists name inactive validators"""
+    n = rng.choice([4, 5, 6, 8])
+    k = rng.choice([1, 1, 2, 3])
+    tokens = [k * MIL + rng.choice([0, 0, 1, 500000, 900000]) for _ in range(n)]
+    if rng.random() < 0.4:
+        tokens[rng.randrange(n)] = (k + rng.choice([1, 2])) * MIL           # one stronger validator
+    if rng.random() < 0.3:
+        tokens[rng.randrange(n)] = max(MIL, (k - 1) * MIL)                  # one weaker validator
+    M = rng.randint(1, n - 1)
+    nc = rng.choice([1, 1, 2])
+    ops, consumers = [], []
+    for c in range(nc):
+        consumers.append([0, 0, 0, 0, 1, [], [], []])
+        for v in range(n):
+            if rng.random() < rng.choice([0.0, 0.2, 0.5]):
+                ops.append([11, c, v, 0])
+        deny = [v for v in range(n) if rng.random() < 0.4]
+        allow = [v for v in range(n) if rng.random() < 0.6] if rng.random() < 0.5 else []
+        if rng.random() < 0.5:
+            deny = []
+        if not deny and not allow:
+            deny = [rng.randrange(M, n)]
+        ops.append([10, c, rng.choice([90, 95, 100, 100, 67, 50]), 0, rng.choice([0, 0, 50]), rng.choice([0, 0, k * MIL]), 1,
+                    allow, deny, sub(rng, n, 0.3)])
+    ops.append([14, list(range(nc))])
+    for _ in range(rng.randint(1, 4)):
+        r = rng.random()
+        if r < 0.3:
+            v = rng.randrange(n)
+            ops += [[20, v, tokens[v] + rng.choice([0, 1, MIL])], [22]]
+        elif r < 0.45:
+            ops.append([24, rng.randint(1, n)])
+        elif r < 0.6:
+            ops.append([12, rng.randrange(nc), rng.randrange(n)])
+        elif r < 0.7:
+            ops += [[21, rng.randrange(n), 1], [22]]
+        ops.append([15])
+    return {"tokens": tokens, "max_vals": 100, "M": M, "consumers": consumers, "ops": ops}
+
+
+def gen_big_stake(rng):
+    """directed: min_stake around and above 2^63 (uint64) against validators with ordinary tokens and with tokens > 2^63"""
+    n = rng.choice([3, 4, 5, 6])
+    tokens = gen_tokens(rng, n)
+    for _ in range(rng.choice([0, 1, 1, 2])):
+        tokens[rng.randrange(n)] = rng.choice(BIG_TOKENS)
+    M = rng.choice([n, n, n + 1, max(1, n - 1)])
+    nc = rng.choice([1, 2])
+    consumers, ops = [], []
+    for c in range(nc):
+        g = [0, 0, rng.choice([0, 0, 50]), 0, rng.choice([0, 1]), [], [], []]
+        if rng.random() < 0.4 and any(t >= 2 ** 63 - 1 for t in tokens):
+            g[3] = rng.choice(BIG_STAKES)                                    # launch already under a huge minimum stake
+        consumers.append(g)
+        for v in range(n):
+            if rng.random() < 0.9:
+                ops.append([11, c, v, 0])
+    ops.append([14, list(range(nc))])
+    ops.append([15])
+    for _ in range(rng.randint(2, 4)):
+        c = rng.randrange(nc)
+        g = list(consumers[c])
+        g[3] = rng.choice(BIG_STAKES + [0, MIL])
+        if rng.random() < 0.2:
+            g[0] = rng.choice([50, 100])
+        ops.append([10, c] + g)
+        if rng.random() < 0.4:
+            ops += [[20, rng.randrange(n), rng.choice(BIG_TOKENS + [MIL, 2 * MIL])], [22]]
+        ops.append([15])
+    return {"tokens": tokens, "max_vals": 100, "M": M, "consumers": consumers, "ops": ops}
+
+
 def gen(rng, tier):
     total = 500 if tier == "quick" else 12000
+    for _ in range(50 if tier == "quick" else 600):
+        yield gen_topn_inactive(rng)
+        yield gen_big_stake(rng)
     yield tie_witness()
     # variations of the witness: the boundary tie with other M, several consumers sharing the slices
     for m in (1, 2, 3):
